@@ -40,9 +40,10 @@ func TestOverloads(t *testing.T) {
 			g.Flags["overload-self-call"] = !vk.R.HasKnown("cl-rejects:overload-called-from-candidate")
 			return xsugar.OverloadProgram(g, 10)
 		},
-		// the styles shown in doc/overload.md must compile; mixing literals and names in one set is
-		// not shown there, so its rejection is only counted
-		Documented: func(it xsugar.Item) bool { return it.Kind != "overload-mixed" },
+		// every style must compile: doc/overload.md shows literals, names and methods, and the
+		// repository's own tests (cl TestOverload: ",addInt,addFloat", ".addInt,,.addString") mix
+		// literals and names in one set
+		Documented: func(it xsugar.Item) bool { return true },
 		Quick:      16,
 		Thorough:   600,
 	})
